@@ -13,7 +13,7 @@ pub fn mal_vec_bool<S: Src>(s: &mut S) {
     let mut bytes = 2u64.to_le_bytes().to_vec();
     bytes.push(e0);
     bytes.push(e1);
-    let mut rd = ChunkReader::new(&bytes);
+    let mut rd: &[u8] = &bytes[..];
     if let Ok(v) = Deserializer::bare_deserialize::<Vec<bool>>(&mut rd, 0) {
         assert!(v.len() == 2);
         assert!(byte_of_bool(&v[0]) <= 1 && byte_of_bool(&v[1]) <= 1, "C06: no invalid bool values (UB) from corrupted input");
@@ -24,7 +24,7 @@ pub fn mal_vec_char<S: Src>(s: &mut S) {
     let e = s.u32();
     let mut bytes = 1u64.to_le_bytes().to_vec();
     bytes.extend_from_slice(&e.to_le_bytes());
-    let mut rd = ChunkReader::new(&bytes);
+    let mut rd: &[u8] = &bytes[..];
     if let Ok(v) = Deserializer::bare_deserialize::<Vec<char>>(&mut rd, 0) {
         assert!(v.len() == 1);
         let raw = unsafe { *(&v[0] as *const char as *const u32) };
@@ -38,7 +38,7 @@ pub fn mal_vec_u16_len<S: Src>(s: &mut S) {
     let body: [u8; 4] = s.bytes::<4>();
     let mut bytes = n.to_le_bytes().to_vec();
     bytes.extend_from_slice(&body);
-    let mut rd = ChunkReader::new(&bytes);
+    let mut rd: &[u8] = &bytes[..];
     // genuine out-of-memory on absurd lengths is excluded by the property: keep allocation sizes representable
     s.assume(n <= 2 || n >= (1u64 << 62));
     if let Ok(v) = Deserializer::bare_deserialize::<Vec<u16>>(&mut rd, 0) {
@@ -48,13 +48,13 @@ pub fn mal_vec_u16_len<S: Src>(s: &mut S) {
 /// SystemTime: arbitrary 16 bytes never panic.
 pub fn mal_systemtime<S: Src>(s: &mut S) {
     let bytes: [u8; 16] = s.bytes::<16>();
-    let mut rd = ChunkReader::new(&bytes);
+    let mut rd: &[u8] = &bytes[..];
     let _ = Deserializer::bare_deserialize::<std::time::SystemTime>(&mut rd, 0);
 }
 /// Duration: arbitrary 16 bytes never panic.
 pub fn mal_duration<S: Src>(s: &mut S) {
     let bytes: [u8; 16] = s.bytes::<16>();
-    let mut rd = ChunkReader::new(&bytes);
+    let mut rd: &[u8] = &bytes[..];
     let _ = Deserializer::bare_deserialize::<std::time::Duration>(&mut rd, 0);
 }
 /// ArrayVec<u8,4> (bulk path): arbitrary declared length: never more than the capacity, never out of bounds.
@@ -64,7 +64,7 @@ pub fn mal_arrayvec<S: Src>(s: &mut S) {
     let body: [u8; 8] = s.bytes::<8>();
     let mut bytes = n.to_le_bytes().to_vec();
     bytes.extend_from_slice(&body);
-    let mut rd = ChunkReader::new(&bytes);
+    let mut rd: &[u8] = &bytes[..];
     if let Ok(v) = Deserializer::bare_deserialize::<arrayvec::ArrayVec<u8, 4>>(&mut rd, 0) {
         assert!(v.len() <= 4, "C06: ArrayVec never longer than its capacity");
     }
@@ -72,7 +72,7 @@ pub fn mal_arrayvec<S: Src>(s: &mut S) {
 /// [bool; 2] (array bulk path)
 pub fn mal_array_bool<S: Src>(s: &mut S) {
     let bytes: [u8; 2] = s.bytes::<2>();
-    let mut rd = ChunkReader::new(&bytes);
+    let mut rd: &[u8] = &bytes[..];
     if let Ok(v) = Deserializer::bare_deserialize::<[bool; 2]>(&mut rd, 0) {
         assert!(byte_of_bool(&v[0]) <= 1 && byte_of_bool(&v[1]) <= 1, "C06: no invalid bool values (UB) from corrupted input");
     }
